@@ -118,3 +118,33 @@ Fixpoint view_from (tbl : list (string * string)) (eq_lit : sval unit -> string 
   | (name, m) :: r => if eq_lit (setting "tiling_method") name then (true, view_calls m is_true) else view_from r eq_lit is_true
   end.
 Definition view_locally_model := view_from tiling_method_table.
+
+(* ---- toasty tile-healpix (cli.py tile_healpix_impl): no test at all; a FITS pyramid at --outdir, the
+   sampler read from the HEALPix file with --galactic, --depth and --parallelism passed to
+   Builder.toast_base with no coordinate-system / planet / panorama / filter option, then the WTML ---- *)
+Definition hp_pio : sval unit := pyramid_at (setting "outdir") [("default_format", SStr "fits")].
+Definition hp_builder : sval unit := SNewP "Builder" [hp_pio] [].
+Definition hp_sampler : sval unit :=
+  SNewP "healpix_fits_file_sampler" [setting "fitspath"] [("force_galactic", setting "galactic")].
+Definition tile_healpix_impl_model : bool * list (sevent unit) :=
+  (true, [SMethod hp_builder "toast_base" [hp_sampler; setting "depth"]
+                  [("parallel", setting "parallelism"); ("cli_progress", SB true)];
+          SMethod hp_builder "write_index_rel_wtml" [] []]).
+
+(* ---- toasty tile-wwtl (cli.py tile_wwtl_impl): the layer file is loaded (and tiled) by
+   Builder.load_from_wwtl on EVERY path, before the thumbnail; the one test chooses the thumbnail;
+   then the name, then the WTML, all on the one builder over the pyramid at --outdir ---- *)
+Definition ww_builder : sval unit := SNewP "Builder" [pyramid_at (setting "outdir") []] [].
+Definition ww_load_args : list (sval unit) := [SName "settings"; setting "wwtl_path"].
+Definition ww_img : sval unit := SCallA "load_from_wwtl" ww_builder ww_load_args [("cli_progress", SB true)].
+Definition tile_wwtl_impl_model (is_true : sval unit -> bool) : bool * list (sevent unit) :=
+  (true, [SMethod ww_builder "load_from_wwtl" ww_load_args [("cli_progress", SB true)];
+          (if is_true (setting "placeholder_thumbnail")
+           then SMethod ww_builder "make_placeholder_thumbnail" [] []
+           else SMethod ww_builder "make_thumbnail_from_other" [ww_img] []);
+          SMethod ww_builder "set_name" [setting "name"] [];
+          SMethod ww_builder "write_index_rel_wtml" [] []]).
+
+(* receiver and method name of an event *)
+Definition call_recv (e : sevent unit) : option (sval unit) := match e with SMethod r _ _ _ => Some r | SCall _ _ _ => None end.
+Definition call_name (e : sevent unit) : string := match e with SMethod _ m _ _ => m | SCall f _ _ => f end.
